@@ -34,7 +34,8 @@ PROPS = {
         "trusted_base": ["groupcache lru modelled from its source and compared in the disp suite", "runtime.memhash as an arbitrary function"],
     },
     "C11": {
-        "suites": [{"name": "disp", "stateful": True, "quick": 120, "thorough": 1500, "thorough_seeds": 3}],
+        "suites": [{"name": "disp", "stateful": True, "quick": 120, "thorough": 1500, "thorough_seeds": 3},
+                   {"name": "store", "stateful": True, "seq_marker": "open", "quick": 1500, "thorough": 40000, "thorough_seeds": 2}],
         "rule": "disp: for sizes 1..12,15..17,…,1023..1025,2000,0,-5 and random 1..300: sequences of 3*S+40 lookups/purges over a "
                 "key population of 1.5*S (40% on a hot quarter), judged op by op against the LRU model (entry identity = first-seen "
                 "index), resident count (recency list and table of every shard) read by reflection at the end; the two caches of a sequence are "
@@ -47,9 +48,10 @@ PROPS = {
 
 PROPS["C14"] = {
     "suites": [{"name": "loc", "quick": 1500, "thorough": 40000, "thorough_seeds": 3},
-               {"name": "reconf", "args": ["-opt", "nolisten"], "stateful": True, "quick": 150, "thorough": 3000, "thorough_seeds": 2}],
-    "trip_re": "routing|differs_from_fresh:S",
-    "rule": "reconf: the location list each running server ends up with after configuration updates applied through servers.Reset (incl. updates that only shorten a list), read back per server. loc: 1-5 locations (hosts ⊆ 4 hosts, one with upper-case letters, or none; request hosts also in other letter case; prefixes ⊆ 6 overlapping prefixes or none, occasional duplicate names), a server "
+               {"name": "reconf", "args": ["-opt", "nolisten"], "stateful": True, "quick": 150, "thorough": 3000, "thorough_seeds": 2},
+               {"name": "config", "quick": 600, "thorough": 10000, "thorough_seeds": 2}],
+    "trip_re": "routing|differs_from_fresh:S|accepted_unresolvable:missing:location",
+    "rule": "config: a request that every generated location admits (aa.test, /api/x) is taken by some location of every server of an accepted, applied configuration (location names with blanks and other YAML-hostile spellings included). reconf: the location list each running server ends up with after configuration updates applied through servers.Reset (incl. updates that only shorten a list), read back per server. loc: 1-5 locations (hosts ⊆ 4 hosts, one with upper-case letters, or none; request hosts also in other letter case; prefixes ⊆ 6 overlapping prefixes or none, occasional duplicate names), a server "
             "listing a shuffled subset of them (plus an unknown name), 6 requests (host × uri) each through the real middleware chain; each "
             "location has its own upstream so the contacted upstream identifies the choice; judged by membership in the model's allowed set "
             "(the sort is unstable). non-trivial = every request; distinct = distinct (locations, names, host, uri).",
@@ -59,7 +61,9 @@ PROPS["C14"] = {
 
 _STORE_RULE = " store: random get/set/delete sequences on TWO REAL badger stores obtained through store.NewStore, with keys that differ only far from their beginning (1.5 KB keys sharing 1.4 KB, 66 000-byte keys sharing 65 500 bytes — beyond badger's key limit, so writes are refused —, 64 000-byte keys differing in the last byte), replayed on the Lean map StoreMap (the map Sys.store assumes); monitors: a value read was written for that key of that store, a deleted record is gone, one instance per url and different urls are different stores."
 PROPS["C09"] = {
+    "trip_re": "alloc_exceeds|decode_crash.*|roundtrip_differs.*|truncated_accepted|behaviour.*|wrong_body_for_key.*|record_survives|not_started.*|roundtrip_fails:gzip:.*|roundtrip_fails:br:.*|decoder_crash:(gzip|br):.*",
     "suites": [{"name": "codec", "quick": 4000, "thorough": 60000, "thorough_seeds": 3},
+               {"name": "codecs", "quick": 500, "thorough": 10000, "thorough_seeds": 2},
                {"name": "store", "stateful": True, "seq_marker": "open", "quick": 1500, "thorough": 40000, "thorough_seeds": 2}],
     "rule": _STORE_RULE + " codec: reachable entries built through the public API (Get/Cacheable/HitForPass with a recording store): hit, empty "
             "hit-for-pass, hit-for-pass keeping an old response; header sets incl. multi-valued, empty, nil, non-ASCII, quoting; bodies "
@@ -124,7 +128,8 @@ PROPS["C01"] = {
 }
 PROPS["C02"] = {
     "suites": [{"name": "sched", "stateful": True, "quick": 1500, "thorough": 30000, "thorough_seeds": 4},
-               {"name": "proxy", "stateful": True, "seq_marker": "case", "quick": 30, "thorough": 300, "thorough_seeds": 1}],
+               {"name": "proxy", "stateful": True, "seq_marker": "case", "quick": 30, "thorough": 300, "thorough_seeds": 1},
+               {"name": "fault", "quick": 120, "thorough": 3000, "thorough_seeds": 2}],
     "trip_re": "blocked|upstream_hang_not_ended",
     "rule": _SCHED_RULE + " A goroutine that does not reach its next stop within 5 s, or is not finished when the schedule has been wound down, trips 'blocked'.",
     "assumptions": ["every upstream request ends (the property conditions on it; the proxy timeout converts a silent upstream into 504)",
@@ -134,7 +139,8 @@ PROPS["C02"] = {
 }
 PROPS["C04"] = {
     "suites": [{"name": "sched", "stateful": True, "quick": 1500, "thorough": 30000, "thorough_seeds": 4},
-               {"name": "fresh", "quick": 8000, "thorough": 100000, "thorough_seeds": 2}],
+               {"name": "fresh", "quick": 8000, "thorough": 100000, "thorough_seeds": 2},
+               {"name": "proxy", "stateful": True, "seq_marker": "case", "quick": 300, "thorough": 3000, "thorough_seeds": 2}],
     "trip_re": "served_stale|age_gt_T.*|lifetime_gt_declared",
     "rule": _SCHED_RULE, "assumptions": ["'obtained' = the instant the entry became a hit (createdAt)", "the store never returns data that was not written to it (Honest) for the provenance theorem"],
     "trusted_base": _SYS_TRUSTED,
@@ -265,7 +271,8 @@ PROPS["C16"] = {
 }
 
 PROPS["C15"] = {
-    "suites": [{"name": "proxy", "stateful": True, "seq_marker": "case", "quick": 1200, "thorough": 6000, "thorough_seeds": 3}],
+    "suites": [{"name": "proxy", "stateful": True, "seq_marker": "case", "quick": 1200, "thorough": 6000, "thorough_seeds": 3},
+               {"name": "fault", "quick": 90, "thorough": 3000, "thorough_seeds": 2}],
     "trip_re": "upstream_saw_diff.*|conditional_leaked|partial_replayed|no_304|response_header_missing|status_or_header_changed|upstream_not_contacted",
     "rule": "proxy: location configuration (rewrites none / '/api/*:/$1' / '/old:/new' / two chained rules; 0-2 added request headers incl. one "
             "colliding with a client header; 0-2 added response headers incl. one colliding with an upstream header; 0-2 added query "
@@ -278,7 +285,7 @@ PROPS["C15"] = {
     "assumptions": ["PARTIAL: net/http and httputil.ReverseProxy (X-Forwarded-For, hop-by-hop headers, default User-Agent, transparent gzip) are outside: the monitor ignores exactly those headers",
                     "rewrite rules of the documented wildcard form (literal text with at most a trailing *)",
                     "an origin answers 206/304 only to requests carrying Range / validators"],
-    "trusted_base": ["net/http, httputil.ReverseProxy, elton proxy and fresh middlewares", "regexp for rewrite patterns outside the modelled forms", "url.Values.Encode for the location's own parameters"],
+    "trusted_base": ["net/http, httputil.ReverseProxy, elton proxy and fresh middlewares", "regexp for rewrite patterns outside the modelled forms", "url.Values.Encode for the location's own parameters is modelled (Model/Query.lean) and compared on every proxy case; sort.Strings on the parameter names is modelled as a merge sort by byte order"],
 }
 
 NOT_APPLICABLE = {}
